@@ -544,8 +544,8 @@ def parseSymAux : Nat → List Char → Sym
     | none => ⟨n, []⟩
 
 /-- the symbol a Python name denotes: a name of the shape `X__Snn` *is* the helper symbol the
-factorisation would create for `X` (the constructor only asserts that dictionary keys and terminals
-contain no `__`; a right-hand side may mention such a name) -/
+factorisation would create for `X`.  The constructor asserts that keys, right-hand side symbols and
+terminals contain no `__`; `start_symbol_name` is not checked and may name a helper symbol. -/
 def parseSym (n : List Char) : Sym := parseSymAux n.length n
 
 /-- `_Tokenizer.get_all_token_names` -/
@@ -560,6 +560,8 @@ def createProds : Nat → List (List Char × List (List (List Char))) → Prods 
   | _, [], acc => .ok acc
   | n, (s, alts) :: rest, acc =>
     if hasDunder s then .error .assertion
+    -- `assert '__' not in prod_symbol` for every symbol of every production of `s`
+    else if alts.any (fun p => p.any hasDunder) then .error .assertion
     else if (dget (parseSym s) acc).isSome then .error .assertion
     else
       let rules := (numberFrom n alts).map fun (i, p) => (⟨p.map parseSym, i⟩ : Rule Sym)
